@@ -62,6 +62,9 @@ def plan(tier, seed):
                 continue
             for n in lens:
                 shards.append({"peer": peer, "kind": kind, "n": n, "cs": seed})
+                if tier == "thorough" and kind.startswith("blk"):
+                    for blk in (1, 2, 127):
+                        shards.append({"peer": peer, "kind": kind, "n": n, "cs": seed, "blk": blk})
     # group into ~32 shards
     groups = [[] for _ in range(32)]
     for i, s in enumerate(shards):
@@ -70,15 +73,16 @@ def plan(tier, seed):
 
 
 # ----------------------------------------------------------------------------- rig handling
-def make_rig(peer):
+def make_rig(peer, blk=5):
     if peer == "ref":
-        rig = rigs.ClientRig(node_id=7, od=od_factory(), timeout=0.003, blk_sizes=[5])
+        rig = rigs.ClientRig(node_id=7, od=od_factory(), timeout=0.003, blk_sizes=[blk])
         rig.peer = "ref"
         rig.server_name = "refserver"
     else:
         rig = rigs.PairRig(od_factory, node_ids=(7,), timeout=0.003)
         rig.peer = "real"
         rig.server_name = "slave"
+    rig.blk = blk
     return rig
 
 
@@ -109,7 +113,7 @@ def do_transfer(rig, kind, mux, data):
         return None
     cls = stream_class()
     old = cls.blksize
-    cls.blksize = 5
+    cls.blksize = rig.blk
     try:
         with sdo.open(mux[0], mux[1], "rb", block_transfer=True) as fp:
             return fp.read()
@@ -156,7 +160,7 @@ def stale_frames(kind, mux):
 # ----------------------------------------------------------------------------- one case
 def run_case(ctx, c):
     from canopen.sdo.exceptions import SdoAbortedError, SdoCommunicationError
-    rig = make_rig(c["peer"])
+    rig = make_rig(c["peer"], c.get("blk", 5))
     kind, n, k, dist = c["kind"], c["n"], c["k"], c["dist"]
     mux = list(VAL_OBJ)
     data = payload(n, c["seed"])
@@ -228,7 +232,7 @@ def run_case(ctx, c):
         rig.close()
         return
     ctx.count("cases_judged")
-    sig = (c["peer"], kind, n, c["stepclass"], dist.split(":")[0])
+    sig = (c["peer"], kind, n, c["stepclass"], dist.split(":")[0], c.get("blk", 5))
     # ---- outcome classification
     if exc is None:
         if upload:
@@ -299,7 +303,8 @@ def run_case(ctx, c):
 def enumerate_cases(desc_run, cs):
     """Undisturbed run first: which responses exist; then every step x disturbance."""
     peer, kind, n = desc_run["peer"], desc_run["kind"], desc_run["n"]
-    rig = make_rig(peer)
+    blk = desc_run.get("blk", 5)
+    rig = make_rig(peer, blk)
     mux = list(VAL_OBJ)
     data = payload(n, 12345)
     if kind.endswith("ul"):
@@ -330,7 +335,7 @@ def enumerate_cases(desc_run, cs):
             if k == 0:
                 dists.append("stale-before:" + name)
         for d in dists:
-            out.append({"peer": peer, "kind": kind, "n": n, "k": k, "dist": d, "stepclass": sc, "seed": rng.randint(0, 1 << 30)})
+            out.append({"peer": peer, "kind": kind, "n": n, "k": k, "dist": d, "stepclass": sc, "seed": rng.randint(0, 1 << 30), "blk": blk})
     return out
 
 
